@@ -881,6 +881,161 @@ def constants_item(item):
     return res
 
 
+def printer_item(item):
+    """the saved parameter file: str(constants) (the text setupSave writes) read back by get_constants reproduces every public
+    constant.  Several constants are symbolic reals (zero included), so a printer that filters or reformats by value is
+    exposed by the solver; the symbolic values travel through the text as identifiers (format hook), the rest of the text
+    is parsed as JSON."""
+    import math
+    import re
+    sym_keys, canary = item
+    res = H.worker_result()
+    cmod = H.repo_import('pygyro.initialisation.constants')
+    t0 = _time.time()
+    reg = {}
+    old_str, old_fmt = symx.SNum.__str__, symx.SNum.__format__
+
+    def naming(self, *a):
+        for k_, v_ in reg.items():
+            if v_ is self:
+                return k_
+        name = 'symv%d' % len(reg)
+        reg[name] = self
+        setattr(cmod, name, self)
+        return name
+    st = {}
+
+    class FakeJson:
+        @staticmethod
+        def load(f):
+            return st['data']
+
+    class FakeFile:
+        def __enter__(self): return self
+        def __exit__(self, *a): return False
+
+    def body(ctx):
+        c = cmod.Constants()
+        for k in sym_keys:
+            v = z3.Real('p_' + k)
+            ctx.assume(z3.And(v >= -2, v <= 2))
+            setattr(c, k, symx.SReal(v))
+        text = str(c)
+        data = {}
+        for line in text.strip().strip('{}').strip().split('\n'):
+            line = line.strip().rstrip(',')
+            if not line:
+                continue
+            mm = re.match(r'^"([^"]+)":(.*)$', line)
+            if not mm:
+                raise ValueError('line of the parameter file is not "key":value : %r' % line)
+            key, vt = mm.group(1), mm.group(2).strip()
+            data[key] = reg[vt] if vt in reg else json.loads(vt)
+        st['data'] = dict(data)
+        st['text'] = text
+        new = cmod.get_constants('initParams.json')
+        return c, new
+
+    def patch():
+        cmod.open = lambda *a, **k: FakeFile()
+        cmod.json = FakeJson
+        symx.SNum.__str__ = naming
+        symx.SNum.__repr__ = naming
+        symx.SNum.__format__ = naming
+
+    def unpatch():
+        symx.SNum.__str__ = old_str
+        symx.SNum.__repr__ = old_str
+        symx.SNum.__format__ = old_fmt
+        cmod.json = json
+        if 'open' in vars(cmod):
+            del cmod.open
+
+    def replay(vals):
+        """real file round trip with the model's values"""
+        unpatch()
+        fd, path = tempfile.mkstemp(suffix='.json')
+        try:
+            c = cmod.Constants()
+            for k, v in vals.items():
+                setattr(c, k, v)
+            with os.fdopen(fd, 'w') as f:
+                f.write(str(c))
+            try:
+                new = cmod.get_constants(path)
+            except Exception as e:
+                return 'the saved parameter file cannot be read back: %s: %s' % (type(e).__name__, str(e)[:120])
+            for k in dir(c):
+                a = getattr(c, k)
+                if callable(a) or k[0] == '_':
+                    continue
+                b = getattr(new, k)
+                if a != b:
+                    return 'constant %s = %r is %r after writing and re-reading the parameter file' % (k, a, b)
+            return None
+        finally:
+            os.remove(path)
+            patch()
+    patch()
+    try:
+        for ctx, (kind, val) in symx.explore(body, timeout_ms=20000, maxpaths=300):
+            if kind == 'abort':
+                if val.inconclusive:
+                    res['inconclusive'].append('printer abort %s' % val.why)
+                continue
+            res['obligations'] += 1
+            mdl = ctx.model() if ctx.check() == 'sat' else None
+            vals = {k: float(symx.model_value(mdl, symx.SReal(z3.Real('p_' + k)))) for k in sym_keys} if mdl is not None else {k: 0.0 for k in sym_keys}
+            if kind == 'exc':
+                prob = replay(vals)
+                if prob:
+                    res['violations'].append(('constants:printer', '%s: %s / %s' % (type(val).__name__, str(val)[:100], prob), dict(kind='printer', values=vals)))
+                else:
+                    res['inconclusive'].append('printer: exception on the model only %r' % (val,))
+                continue
+            c, new = val
+            bad, where = [], []
+            for k in dir(c):
+                a = getattr(c, k)
+                if callable(a) or k[0] == '_':
+                    continue
+                b = getattr(new, k)
+                if isinstance(a, symx.SNum) or isinstance(b, symx.SNum):
+                    if b is None:
+                        bad.append(z3.BoolVal(True))
+                    else:
+                        bad.append(symx.toreal(symx.zt(symx.K(a) if not isinstance(a, symx.SNum) else a)) != symx.toreal(symx.zt(symx.K(b) if not isinstance(b, symx.SNum) else b)))
+                else:
+                    bad.append(z3.BoolVal(a != b))
+                where.append(k)
+            r_ = ctx.check(z3.Or(bad))
+            if r_ == 'unsat':
+                res['discharged'] += 1
+                res['nontrivial'].append('printer|%s' % ''.join('T' if d['choice'] else 'F' for d in ctx.decisions))
+            elif r_ == 'sat':
+                m2 = ctx.model()
+                hits = [w for w, b in zip(where, bad) if z3.is_true(m2.eval(b, model_completion=True))]
+                vals = {k: float(symx.model_value(m2, symx.SReal(z3.Real('p_' + k)))) for k in sym_keys}
+                prob = replay(vals)
+                rep = dict(kind='printer', constants=hits, values=vals, concrete=prob, canary=bool(canary))
+                if prob:
+                    res['violations'].append(('constants:printer', '%s (values %s)' % (prob, vals), rep))
+                else:
+                    res['inconclusive'].append('printer model does not reproduce: %r' % rep)
+            else:
+                res['inconclusive'].append('unknown printer query')
+    finally:
+        unpatch()
+        for name in reg:
+            if hasattr(cmod, name):
+                delattr(cmod, name)
+    res['stats'] = symx.GLOBAL.as_dict()
+    symx.GLOBAL.__init__()
+    res['wall'] = round(_time.time() - t0, 2)
+    res['canary'] = canary[0] if canary else None
+    return res
+
+
 def replay_constants(fname, order, canary):
     """the real get_constants on a real file whose keys are written so that they are consumed in `order`"""
     import math
@@ -960,6 +1115,7 @@ def main():
             caught[r['canary']] = bool(r['violations'])
             continue
         run.merge(r)
+    run.merge(printer_item((('n', 'm', 'eps', 'kN0', 'B0', 'iotaVal'), None)))
     hit = caught.get(CONST_CANARY[0], False)
     run.canaries.append(dict(name=CONST_CANARY[0], detected=hit))
     if not hit:
@@ -969,7 +1125,7 @@ def main():
                               'fullSimulation: every pygyro class, argparse, time.time (arbitrary non-decreasing clock), os.path/os.mkdir, open/print replaced by recording stubs']
     run.bounds = dict(tiling='all extents, 1..%d writer and reader processes per dimension' % P, selection='2 (thorough 3) checkpoints, times < 10^%d' % MAXD,
                       driver='saveStep <= %d, <= %d iterations, start time <= 8, dt = 2, both fresh and restarted runs, ranks 0 and 1' % (SMAX, K))
-    run.outside = ['bit-exact HDF5 I/O and the h5py layer (C library, not MPI-enabled in this image)', 'the printer of the saved parameter file (Constants.__str__) and the text-level JSON round trip of floats; an explicit rp entry (rp is derived from rMin/rMax by the setters)',
+    run.outside = ['bit-exact HDF5 I/O and the h5py layer (C library, not MPI-enabled in this image)', 'the text-level round trip of float literals through the saved parameter file (symbolic values travel as identifiers); an explicit rp entry (rp is derived from rMin/rMax by the setters)',
                    'non-integer time steps (file names such as grid_0002.5.h5)', 'state equality of split runs beyond control flow: follows from identical per-iteration operator sequences, '
                    'resumption at the checkpointed time and bit-exact I/O (the latter not decided)']
     run.assumptions = ['checkpoint names are produced by Grid.writeH5Dataset\'s format expression', 'dt = 2 (integer) in the driver runs']
